@@ -84,8 +84,13 @@ class Connection:
     if self.__class__.STORAGE_KEY != "name":
       return
     name = self.name
-    if not isinstance(name, str) or gfapy.is_placeholder(name):
+    if gfapy.is_placeholder(name):
       return
+    if not isinstance(name, str):
+      # (level 0) e.g. an ID tag of a link which was not declared as Z
+      raise gfapy.FormatError(
+        "The identifier of the line is not a string: {}\n".format(repr(name))+
+        "Line: {}".format(self))
     for k in self.__class__.REFERENCE_FIELDS:
       value = self.get(k)
       for ref in (value if isinstance(value, list) else [value]):
